@@ -32,7 +32,7 @@ def plan(tier):
 
 def floors(tier):
     return {"nontrivial": 60, "held:main": 150, "counter:exact_runs": 150, "counter:tau_runs": 150, "counter:rows_checked": 3000,
-            "counter:intervals_checked": 3000, "counter:empty_paths": 10, "counter:grids_past_extinction": 20,
+            "counter:intervals_checked": 3000, "counter:empty_paths": 10, "counter:states_only_runs": 80, "counter:grids_past_extinction": 20,
             "class:grid-list": 30, "class:grid-tuple": 30, "class:grid-ndarray": 30, "class:grid-random": 50, "class:grid-uniform": 50,
             "class:single-event": 5, "class:single-state": 5,
             "reach:SimulateOde._extractObservationAtTime": 300, "reach:SimulateOde._addJumpsBetweenTime": 300}
@@ -70,7 +70,7 @@ def run_case(rng, idx, tier, lane, ctx):
     if grow_k:
         cls.append("grown-model")
     counters = {"exact_runs": 0, "tau_runs": 0, "rows_checked": 0, "intervals_checked": 0, "empty_paths": 0,
-                "grids_past_extinction": 0, "on_grid_point": 0}
+                "grids_past_extinction": 0, "on_grid_point": 0, "states_only_runs": 0}
     # sometimes start from a state where nothing can fire
     if rng.random() < 0.08:
         x0 = [0 for _ in x0]
@@ -168,6 +168,37 @@ def run_case(rng, idx, tier, lane, ctx):
                 # tau-leap mode: the property only fixes row count and first row; counts must at least add up
                 if not np.allclose(Jg.sum(axis=0), counts.sum(axis=0), rtol=0, atol=1e-9):
                     bad("tau-leap interval counts do not add up to the raw counts inside the grid", got=Jg.sum(axis=0).tolist(), expected=counts.sum(axis=0).tolist())
+        # ---- the same request with full_output=False (states only): same row clauses, judged against the path of THAT call
+        if not wit and rng.random() < 0.6:
+            cfg2 = dict(cfg, full_output=False, seed=np_seed(rng))
+            configs.append(cfg2)
+            r2 = S.run_config(m, spec, V, x0, float(g[-1]), cfg2, grid=grid_arg)
+            for k, v in r2["counters"].items():
+                counters[k] = counters.get(k, 0) + v
+            if r2["inconclusive"]:
+                return {"status": "inconclusive", "reason": r2["inconclusive"], "counters": counters, "sample": spec}
+            wit.extend(r2["witnesses"])
+            if r2["out"] is not None and not r2["witnesses"]:
+                Xonly = r2["out"]
+                counters["states_only_runs"] += 1
+                if isinstance(Xonly, tuple) or len(Xonly) != cfg2["n"]:
+                    wit.append({"what": "gridded solve_stochast(full_output=False) did not return one state array per run", "config": cfg2})
+                else:
+                    for i in range(cfg2["n"]):
+                        raw = r2["probe"].paths[i]
+                        Xg = np.asarray(Xonly[i], dtype=float)
+                        if Xg.shape != (len(g), len(x0)):
+                            wit.append({"what": "gridded states do not have one row per requested time", "config": cfg2, "shape": list(Xg.shape)})
+                            continue
+                        if not np.array_equal(Xg[0], np.asarray(x0, dtype=float)):
+                            wit.append({"what": "first gridded row differs from the initial state", "config": cfg2, "row0": Xg[0].tolist(), "x0": x0})
+                        rows, _counts, on_grid = reference_grid(raw, g, nE, exact)
+                        if exact and not on_grid:
+                            counters["rows_checked"] += len(g)
+                            if not np.array_equal(Xg, rows):
+                                k = int(np.argmax(np.any(Xg != rows, axis=1)))
+                                wit.append({"what": "gridded row is not the state of the underlying path at that time", "config": cfg2, "run": i, "row": k,
+                                            "time": float(g[k]), "got": Xg[k].tolist(), "expected": rows[k].tolist(), "grid": g.tolist()})
         if wit:
             break
     sample = {"spec": spec, "theta": theta, "x0": x0, "grid": g.tolist(), "grid_form": form, "configs": configs}
